@@ -42,6 +42,9 @@ pub struct Dut {
     /// at_sim_end reports an error (the tear-down event is bracketed all the same)
     #[serde(default)]
     pub end_err: bool,
+    /// Module::stack builds a stack of its own elements and appends it as a whole (instead of element by element)
+    #[serde(default)]
+    pub append_at_once: bool,
 }
 
 #[derive(Debug, Clone, Serialize, Deserialize, PartialEq)]
@@ -150,8 +153,16 @@ struct DutModule {
 
 impl Module for DutModule {
     fn stack(&self, mut stack: ProcessingStack) -> ProcessingStack {
-        for (i, k) in self.dut.own.iter().enumerate() {
-            stack.append(El { idx: self.global_len + i, kind: *k });
+        if self.dut.append_at_once {
+            let mut own = ProcessingStack::default();
+            for (i, k) in self.dut.own.iter().enumerate() {
+                own.append(El { idx: self.global_len + i, kind: *k });
+            }
+            stack.append(own);
+        } else {
+            for (i, k) in self.dut.own.iter().enumerate() {
+                stack.append(El { idx: self.global_len + i, kind: *k });
+            }
         }
         stack
     }
@@ -532,6 +543,7 @@ pub fn gen_case(rng: &mut Rng) -> Case {
                 restart_on,
                 handler_sends: rng.chance(1, 2),
                 end_err: rng.chance(1, 6),
+                append_at_once: rng.chance(1, 2),
             }
         })
         .collect();
@@ -571,6 +583,9 @@ pub fn cmd(args: &Args) -> Report {
         rep.count(&format!("cases_with_stack_of_{k_max}"), 1);
         if !case.global.is_empty() && case.duts.iter().any(|d| !d.own.is_empty()) {
             rep.count("cases_with_global_and_module_stack", 1);
+        }
+        if case.duts.iter().any(|d| d.append_at_once && !case.global.is_empty() && d.own.len() > case.global.len()) {
+            rep.count("cases_appending_a_longer_module_stack_at_once", 1);
         }
         if findings.is_empty() && obs.consumed > 0 && k_max >= 2 {
             rep.nontrivial(case_hash(&case));
